@@ -424,6 +424,15 @@ def checkCase (env : Env) (c : Case) : Env × Array String := Id.run do
     let want := 1 + (LPret.foldl (fun (hs : Std.HashSet (List Nat)) p => (nprefixes p.key).foldl (fun hs u => hs.insert u) hs) {}).size
     if da.numStates != want then
       a := a.prop "C15" c.id s!"num_states={da.numStates} but 1 + distinct non-empty prefixes of reportable patterns = {want}"
+    -- "every one of those states is actually reachable from the root": when the count invariant fails on
+    -- the implementation's table, say which half of the property fails (walk of the patterns' prefixes
+    -- through the real `child` function)
+    if !da.countInv LPret then
+      let ns := da.nodes LPret
+      if ns.length < want then
+        a := a.prop "C15" c.id s!"only {ns.length} of the {want} states (root + distinct non-empty prefixes of reportable patterns) are reachable from the root in the built table; num_states={da.numStates}"
+      if !nodupFast (ns.map (·.2)) then
+        a := a.prop "C15" c.id s!"two distinct prefixes share one table index: fewer distinct states than num_states={da.numStates}"
     match c.hb with
     | some (heap, elems, szSt, szOut) =>
       if elems < da.numStates then a := a.prop "C15" c.id s!"num_elements={elems} < num_states={da.numStates}"
